@@ -12,14 +12,24 @@ def siteName : Site → String
   | .cmpOptions => "cmpOptions" | .blkwrCreate => "blkwrCreate" | .fragtblCreate => "fragtblCreate"
   | .procCreate => "procCreate" | .idtblCreate => "idtblCreate" | .xwrCreate => "xwrCreate"
   | .imCreate => "imCreate" | .dmCreate => "dmCreate" | .dirwrCreate => "dirwrCreate"
+  | .realpathOut => "realpathOut"
   | .selinuxOpen => "selinuxOpen" | .xattrMapOpen => "xattrMapOpen" | .sortfileOpen => "sortfileOpen"
   | .dirIterCreate => "dirIterCreate" | .scanDir => "scanDir" | .fstreeFromFile => "fstreeFromFile"
   | .postProcess => "postProcess" | .applyXattrs => "applyXattrs" | .sortFiles => "sortFiles"
-  | .chdirPack => "chdirPack" | .packFile i => s!"packFile:{i}" | .sparseTail i => s!"sparseTail:{i}"
-  | .tarNext i => s!"tarNext:{i}" | .tarEntry i => s!"tarEntry:{i}"
+  | .chdirPack => "chdirPack" | .nodePath i => s!"nodePath:{i}" | .packFile i => s!"packFile:{i}"
+  | .tarNext i => s!"tarNext:{i}" | .tarReadLink i => s!"tarReadLink:{i}" | .tarEntry i => s!"tarEntry:{i}"
   | .procFinish => "procFinish" | .serialize => "serialize" | .fragTable => "fragTable"
   | .exportAddRoot => "exportAddRoot" | .exportWrite => "exportWrite" | .idTable => "idTable"
   | .xattrFlush => "xattrFlush" | .superRewrite => "superRewrite" | .pad => "pad"
+  | .sOpenStdout => "sOpenStdout" | .sXfrmCreate => "sXfrmCreate" | .sXfrmWrap => "sXfrmWrap" | .sIterCreate => "sIterCreate"
+  | .sHlFilter => "sHlFilter" | .sNext i => s!"sNext:{i}" | .sEntry i => s!"sEntry:{i}" | .sTerminate => "sTerminate"
+  | .sFlush => "sFlush"
+  | .rOpen => "rOpen" | .rSuper => "rSuper" | .rCmpCreate => "rCmpCreate" | .rXattrCreate => "rXattrCreate"
+  | .rXattrLoad => "rXattrLoad" | .rIdCreate => "rIdCreate" | .rIdRead => "rIdRead" | .rDirReader => "rDirReader"
+  | .rDataReader => "rDataReader" | .rFragTable => "rFragTable" | .rHierarchy => "rHierarchy" | .rStat => "rStat"
+  | .rCatStream => "rCatStream" | .rCatStdout => "rCatStdout" | .rSplice i => s!"rSplice:{i}" | .rTreeSort => "rTreeSort"
+  | .rMkdirP => "rMkdirP" | .rChdir => "rChdir" | .rRestore => "rRestore" | .rFill => "rFill" | .rAttribs => "rAttribs"
+  | .rDescribe => "rDescribe" | .rDumpXattrs => "rDumpXattrs"
 
 def msgName : Msg → String
   | .waiting => "waiting" | .inodes => "inodes" | .fragtbl => "fragtbl" | .exporttbl => "exporttbl"
@@ -27,25 +37,51 @@ def msgName : Msg → String
 
 def joinOr (l : List String) : String := if l.isEmpty then "-" else ",".intercalate l
 
-def parseCfg (tool flags nf ns : String) : Option Cfg := do
+/-- entries of a tar archive: one letter each — n node, l link, s skipped, k skipped link; `-` = none -/
+def parseEntries (s : String) : Option (List TarEnt) :=
+  if s = "-" then some [] else
+  s.toList.mapM fun ch =>
+    if ch = 'n' then some {} else if ch = 'l' then some { link := true }
+    else if ch = 's' then some { skipped := true } else if ch = 'k' then some { link := true, skipped := true } else none
+
+/-- flags: s selinux, x xattr file, o sort file, p pack file, d pack dir, c pack dir = cwd, r relative output,
+    e exportable, n no xattrs, q quiet -/
+def parseCfg (tool flags nf ents : String) : Option Cfg := do
   let t ← if tool = "gen" then some Tool.gensquashfs else if tool = "t2s" then some Tool.tar2sqfs else none
   let n ← nf.toNat?
-  let s ← ns.toNat?
+  let es ← parseEntries ents
   let has := fun (c : Char) => flags.toList.contains c
-  if flags.toList.any (fun c => !("sxopdenq-".toList.contains c)) then none else
+  if flags.toList.any (fun c => !("sxopdcrenq-".toList.contains c)) then none else
   some { tool := t, selinux := has 's', xattrFile := has 'x', sortFile := has 'o', packFile := has 'p',
-         packDir := has 'd', exportable := has 'e', noXattr := has 'n', quiet := has 'q', nfiles := n, sparseTails := s }
+         packDir := has 'd', packDirIsCwd := has 'c', relOut := has 'r', exportable := has 'e', noXattr := has 'n',
+         quiet := has 'q', nfiles := n, entries := es }
+
+/-- sqfs2tar: flags c compressed, L no hard links; n = entries.
+    rdsquashfs: exactly one of l s c u d x (operation), N image without xattrs, p unpack root; n = splice calls -/
+def parseRCfg (tool flags nf : String) : Option RCfg := do
+  let n ← nf.toNat?
+  let has := fun (c : Char) => flags.toList.contains c
+  if tool = "s2t" then
+    if flags.toList.any (fun c => !("cL-".toList.contains c)) then none else
+    some { sqfs2tar := true, compressed := has 'c', noLinks := has 'L', nentries := n }
+  else if tool = "rd" then
+    if flags.toList.any (fun c => !("lscudxNp-".toList.contains c)) then none else
+    let op ← if has 'l' then some RdOp.ls else if has 's' then some RdOp.stat else if has 'c' then some RdOp.cat
+             else if has 'u' then some RdOp.unpack else if has 'd' then some RdOp.describe
+             else if has 'x' then some RdOp.rdattr else none
+    some { sqfs2tar := false, hasXattrs := !has 'N', op := op, unpackRoot := has 'p', nsplice := n }
+  else none
 
 def parseVariant (s : String) : Option Variant :=
-  if s = "cur" then some .current else if s = "fix" then some .fixed else none
+  if s = "cur" then some .current else if s = "fix" then some .fixed else if s = "snap" then some .snapshot else none
 
 /-- a fault spec is `-`, or a comma separated list of site names / `@position` -/
-def parseFaults (c : Cfg) (s : String) : Option (List Nat) :=
+def parseFaults (prog : List Site) (s : String) : Option (List Nat) :=
   if s = "-" then some [] else
   (s.splitOn ",").mapM fun tok =>
     if tok.startsWith "@" then (tok.drop 1).toNat?
     else
-      let names := (program c).map siteName
+      let names := prog.map siteName
       let i := names.findIdx (· == tok)
       if i < names.length then some i else none
 
@@ -56,10 +92,14 @@ def scriptOf (ps : List Nat) : List Bool :=
 def outName : OutFile → String
   | .never => "never" | .present => "present" | .unlinked => "unlinked"
 
-def showResult (r : Result) : String :=
+def showResult (v : Variant) (r : Result) : String :=
   let dmg := r.trace.ops.any (fun o => match o with | .damaged _ => true | _ => false)
-  let diag := match r.trace.failed with | some s => diagOnFail s | none => false
-  s!"status={r.status} out={outName r.out} cleanup={if r.cleanupReached then 1 else 0} finish={if r.finishOk then 1 else 0} failed={match r.trace.failed with | some s => siteName s | none => "-"} swallowed={joinOr (r.trace.swallowed.map siteName)} msgs={joinOr (r.trace.msgs.map msgName)} nops={r.trace.ops.length} damaged={if dmg then 1 else 0} diag={if diag then 1 else 0} ran={r.trace.ran.length}"
+  let diag := match r.trace.failed with | some s => diagOnFail v s | none => false
+  let ul := match r.unlinkHit with | none => "none" | some true => "hit" | some false => "miss"
+  s!"status={r.status} out={outName r.out} cleanup={if r.cleanupReached then 1 else 0} finish={if r.finishOk then 1 else 0} failed={match r.trace.failed with | some s => siteName s | none => "-"} swallowed={joinOr (r.trace.swallowed.map siteName)} msgs={joinOr (r.trace.msgs.map msgName)} nops={r.trace.ops.length} damaged={if dmg then 1 else 0} diag={if diag then 1 else 0} unlink={ul} cwd={if r.trace.cwd == .pack then "pack" else "start"} ran={joinOr (r.trace.ran.map siteName)}"
+
+def showRResult (r : RResult) : String :=
+  s!"status={r.status} failed={match r.trace.failed with | some s => siteName s | none => "-"} diag={if r.trace.failed.isSome then 1 else 0} ran={joinOr (r.trace.ran.map siteName)}"
 
 def bit (s : String) : Option Bool := if s = "1" then some true else if s = "0" then some false else none
 
@@ -67,15 +107,18 @@ def bit (s : String) : Option Bool := if s = "1" then some true else if s = "0" 
 open Sqfs.FailStop.BP in
 def primName : BP.Prim → String
   | .inodeAlloc => "inodeAlloc" | .allocBlock => "allocBlock" | .allocFragCopy => "allocFragCopy"
-  | .submit => "submit" | .poolDequeue => "poolDequeue" | .writeBlock => "writeBlock"
+  | .submit => "submit" | .poolDequeue => "poolDequeue" | .storeLocation => "storeLocation" | .writeAt => "writeAt"
+  | .dedupRead => "dedupRead" | .dedupTruncate => "dedupTruncate"
   | .growSparseBlock => "growSparseBlock" | .growDataBlock => "growDataBlock" | .growSparseTail => "growSparseTail"
   | .fragTableSet => "fragTableSet" | .fragLookup => "fragLookup" | .fragTableAppend => "fragTableAppend"
   | .allocChunk => "allocChunk" | .htInsert => "htInsert"
 
-/-- `B<i><d>`, `A<n>:<z><d>` (z: all zero, d: duplicate of an earlier fragment), `E`, `S`, `F` -/
+/-- `B<i><d><n><b>` (with inode, dont_fragment, dont_deduplicate, data blocks duplicate earlier ones),
+    `A<n>:<z><d>` (z: all zero, d: duplicate of an earlier fragment), `E`, `S`, `F` -/
 def parseApi (tok : String) : Option BP.Api :=
   match tok.toList with
-  | ['B', i, d] => some (.beginFile (i == '1') (d == '1'))
+  | ['B', i, d] => some (.beginFile (i == '1') (d == '1') false false)
+  | ['B', i, d, n, b] => some (.beginFile (i == '1') (d == '1') (n == '1') (b == '1'))
   | ['E'] => some .endFile
   | ['S'] => some .sync
   | ['F'] => some .finish
@@ -108,7 +151,7 @@ def bpFaultAt (v : Variant) (calls : List BP.Api) (j : Nat) (kinds : List String
           else
             match BP.runCall v BPFUEL a p (List.replicate idx false ++ [true]) with
             | (r, _, _) =>
-              s!"{" ".intercalate (acc ++ [if r.ok then "ok" else "err"])} faulted={if r.faulted then 1 else 0} damaged={if r.damaged then 1 else 0} err={match r.err with | some .fault => "fault" | some .fuel => "fuel" | some .sequence => "sequence" | some .internal => "internal" | none => "-"} prims={joinOr names}"
+              s!"{" ".intercalate (acc ++ [if r.ok then "ok" else "err"])} faulted={if r.faulted then 1 else 0} damaged={if r.damaged then 1 else 0} err={match r.err with | some .fault => "fault" | some .fuel => "fuel" | some .nullDeref => "nullDeref" | some .sequence => "sequence" | some .internal => "internal" | none => "-"} prims={joinOr names}"
   go 0 calls {} []
 
 def bpFaultFree (v : Variant) (calls : List BP.Api) : String :=
@@ -117,13 +160,20 @@ def bpFaultFree (v : Variant) (calls : List BP.Api) : String :=
 
 def step (line : String) : String :=
   match words line with
-  | ["run", v, tool, flags, nf, ns, faults] =>
-    match parseVariant v, parseCfg tool flags nf ns with
+  | ["run", v, tool, flags, nf, ents, faults] =>
+    match parseVariant v, parseCfg tool flags nf ents with
     | some v, some c =>
-      match parseFaults c faults with
-      | some ps => showResult (run v c (scriptOf ps))
+      match parseFaults (program v c) faults with
+      | some ps => showResult v (run v c (scriptOf ps))
       | none => "bad-op"
     | _, _ => "bad-op"
+  | ["rrun", tool, flags, nf, faults] =>
+    match parseRCfg tool flags nf with
+    | some c =>
+      match parseFaults (readerSites c) faults with
+      | some ps => showRResult (runReader c (scriptOf ps))
+      | none => "bad-op"
+    | none => "bad-op"
   | ["bp", v, j, kinds, calls] =>
     match parseVariant v, j.toNat?, (calls.splitOn ",").mapM parseApi with
     | some v, some j, some cs => bpFaultAt v cs j (kinds.splitOn "|")
@@ -132,9 +182,13 @@ def step (line : String) : String :=
     match parseVariant v, (calls.splitOn ",").mapM parseApi with
     | some v, some cs => bpFaultFree v cs
     | _, _ => "bad-op"
-  | ["sites", tool, flags, nf, ns] =>
-    match parseCfg tool flags nf ns with
-    | some c => joinOr ((program c).map siteName)
+  | ["sites", v, tool, flags, nf, ents] =>
+    match parseVariant v, parseCfg tool flags nf ents with
+    | some v, some c => joinOr ((program v c).map siteName)
+    | _, _ => "bad-op"
+  | ["rsites", tool, flags, nf] =>
+    match parseRCfg tool flags nf with
+    | some c => joinOr ((readerSites c).map siteName)
     | none => "bad-op"
   | ["monitor", crashed, exit0, diag, packer, left, same] =>
     match bit crashed, bit exit0, bit diag, bit packer, bit left, bit same with
